@@ -21,7 +21,7 @@ from typing import Dict, List, Optional, Set, Tuple
 
 from ..fa import FA, fa_of
 from ..model import ClassInfo, FuncInfo, Program
-from ..sym import Term, leaves
+from ..sym import Term, leaves, subterms
 from ..types_ import AttrTypes, _is_super, flatten
 
 NP_RANDOM_NON_DRAW = {"default_rng", "Generator", "RandomState", "SeedSequence", "PCG64", "MT19937", "Philox",
@@ -183,6 +183,24 @@ class RngDiscipline:
                         if last == "get_rng_from_global":
                             events.append(Event("from-global", fi, line, text, "", depth))
                             continue
+                        # construction of a package class whose constructor chain takes a generator from the global state
+                        K_ = self._resolve_class(f[1])
+                        if K_ is not None and fi.name not in ("__init__", "worker_init_fn", "_worker_init_fn") and \
+                                self._ctor_from_global(K_):
+                            # behind a memo-miss test ('key not in self.<table>' / 'self.<slot> is None') the construction
+                            # happens only when the constructor did not fill the memo: not decided here
+                            lazy = False
+                            for e_, pol_, c_, tn_ in fa.cond_parts_at(n):
+                                for x_ in subterms(c_):
+                                    if x_[0] == "in" and any(l_[0] == "self" for l_ in leaves(x_[2])):
+                                        lazy = True
+                                    if x_[0] == "is" and any(y_[0] == "self" for y_ in x_[1]):
+                                        lazy = True
+                            events.append(Event("from-global-lazy" if lazy else "from-global", fi, line, text,
+                                                f"constructing {K_.name} runs get_rng_from_global() (in "
+                                                f"{self._ctor_from_global(K_)}), which consumes the process-global NumPy "
+                                                f"state", depth))
+                            continue
                         # package function: follow with parameter binding
                         r = self._resolve_internal(f[1])
                         if r is not None and depth < self.bound:
@@ -330,6 +348,41 @@ class RngDiscipline:
                 events.append(Event("global", fi, line, text,
                                     f"calls an instance of {t[1]}, which samples with the process-global Torch RNG",
                                     depth))
+
+    def _resolve_class(self, dotted: str) -> Optional[ClassInfo]:
+        if not dotted.startswith(self.prog.pkg + "."):
+            return None
+        mod, _, name = dotted.rpartition(".")
+        m = self.prog.modules.get(mod)
+        if m is None:
+            return None
+        b = m.bindings.get(name)
+        if b and b[0] == "class":
+            return b[1]
+        r = self.prog.resolve_name(m, name)
+        return r[1] if r and r[0] == "class" else None
+
+    def _ctor_from_global(self, K: ClassInfo) -> Optional[str]:
+        """qualified name of the constructor in K's chain that calls get_rng_from_global, if any"""
+        cache = self.__dict__.setdefault("_cfg_cache", {})
+        if K.qualname in cache:
+            return cache[K.qualname]
+        res = None
+        fi = K.lookup("__init__")
+        seen = set()
+        while fi is not None and id(fi) not in seen and res is None:
+            seen.add(id(fi))
+            calls_super = False
+            for n in ast.walk(fi.node):
+                if isinstance(n, ast.Call):
+                    r = self.prog.resolve_expr(fi.module, n.func)
+                    if r and r[0] == "func" and r[1].name == "get_rng_from_global":
+                        res = fi.qualname
+                    if isinstance(n.func, ast.Attribute) and n.func.attr == "__init__" and _is_super(n.func.value):
+                        calls_super = True
+            fi = K.lookup_after(fi.cls, "__init__") if calls_super and fi.cls is not None else None
+        cache[K.qualname] = res
+        return res
 
     def _resolve_internal(self, dotted: str) -> Optional[FuncInfo]:
         if not dotted.startswith(self.prog.pkg + "."):
